@@ -166,6 +166,9 @@ def run_case(case, res):
         return make_payload(kind, counter[0])
 
     moved_before = [False]
+    # a second, independent list lives next to the one under test
+    comp = DoublyLinkedList(["companion-a"])
+    comp.append("companion-b")
     init = [fresh() for _ in range(case["n0"])]
     try:
         if case["via_ctor"]:
@@ -349,6 +352,13 @@ def run_case(case, res):
         if len(model) >= 2:
             pos = tuple(_order_signature(model, payload_of['#birth']))
             res.seen((kind, pos) if len(pos) <= 12 else (kind, len(pos), pos[:6], pos[-6:]))
+    try:
+        g = (list(comp), len(comp), comp.head.data, comp.tail.data, comp.head.next_node is comp.tail)
+    except Exception as e:
+        g = repr(e)
+    if g != (["companion-a", "companion-b"], 2, "companion-a", "companion-b", True):
+        raise Violation("other-instance-disturbed", f"a second list [companion-a, companion-b] that was not touched during the history "
+                        f"now presents {g}", {})
 
 
 class _Births(dict):
